@@ -712,14 +712,15 @@ def failed_close_then_unlock_family(thin: int = 1) -> List[dict]:
                 for place in ("eager", "task"):
                     for t in range(3):
                         for k2, extra2 in (("apply", {"num": 2}), ("map", {"n": 2, "nc": 1}), ("starmap", {"n": 2, "nc": 2})):
-                            sp = {"op": "spawn", "pool": 0, "kind": kind, "place": "inline", "worker": {"script": [["wait"]], "fname": "w", "ends": ends}, **extra}
+                            sp = {"op": "spawn", "pool": 0, "kind": kind, "place": "inline", "gname": [0, 1], "worker": {"script": [["wait"]], "fname": "w", "ends": ends}, **extra}
                             nxt = {"op": "spawn", "pool": 0, "kind": k2, "place": "inline", "worker": {"script": [["yield", 1]], "fname": "x"}, **extra2}
+                            same_name = dict(copy.deepcopy(nxt), gname=[0, 1])      # a name that is taken: on a closed pool still PoolIsClosed
                             steps = [sp, {"op": "tick", "k": 3}, {"op": "close", "pool": 0, "place": place}]
                             _ticks(steps, t)
                             steps += [{"op": "gate_all", "place": "inline"}, {"op": "settle"}, {"op": "gate_all", "place": "inline"}, {"op": "settle"},
                                       copy.deepcopy(nxt), {"op": "unlock", "pool": 0, "place": "inline"}, copy.deepcopy(nxt), {"op": "settle"}]
                             steps.extend(copy.deepcopy(DRAIN))
-                            steps += [{"op": "close", "pool": 0, "place": "eager", "re": True}, {"op": "settle"}, copy.deepcopy(nxt), {"op": "settle"}]
+                            steps += [{"op": "close", "pool": 0, "place": "eager", "re": True}, {"op": "settle"}, copy.deepcopy(nxt), same_name, {"op": "settle"}]
                             cases.append({"pools": [{"cls": "TaskPool", "size": size}], "steps": steps})
     return cases[::thin] if thin > 1 else cases
 
